@@ -21,7 +21,7 @@ RULE = ("Two seeded scenario kinds. (a) Tymer on a scripted tyme source: histori
         "Distinct: digest of the operation history.")
 COMPONENTS = dict(real=["hio.base.tyming.Tymer", "hio.help.timing.MonoTimer"], stub=["tyme source (scripted closure)", "wall clock (SimClock)"])
 ASSUMPTIONS = ["MonoTimer(retro=True) only (retro=False documents raising on a retrograde)", "no forward wall-clock jumps"]
-PROBES = ["tymer_rewind", "tymer_restart", "tymer_wind", "tymer_start_offset", "mono_backward_between_reads", "mono_backward_then_start",
+PROBES = ["mono_steady_arithmetic_checked", "tymer_rewind", "tymer_restart", "tymer_wind", "tymer_start_offset", "mono_backward_between_reads", "mono_backward_then_start",
           "mono_expired_then_backward", "mono_restart"]
 BOUNDS = dict(quick=dict(ops=30), thorough=dict(ops=80))
 TIERS = dict(quick=dict(cases=40000, wall=30.0), thorough=dict(cases=5000000, wall=420.0))
@@ -133,6 +133,12 @@ def mono_case(tape, tier, res):
         d0 = tape.pick("dur0", DURS)
         timer = htiming.MonoTimer(duration=d0)
         hist.append(("init", d0))
+        # while the wall clock has not gone backwards the timer is plain arithmetic on it (start, stop = start + duration,
+        # restart from the previous stop); after the first backward step only monotonicity is demanded
+        wall = lambda: clock.true + clock.offset
+        exact = True
+        m_start = wall()
+        m_stop = m_start + float(d0)
         nops = 2 + tape.draw("nops", maxops)
         last_el = None
         last_ex = None
@@ -148,6 +154,7 @@ def mono_case(tape, tier, res):
             elif op == 2:
                 j = tape.pick("back", [0.05, 0.5, 3.0, 1000.0, 1e-6])
                 clock.offset -= j
+                exact = False
                 hist.append(("back", j))
                 res.faults["backward_step"] += 1
                 back_since_read = True
@@ -157,12 +164,19 @@ def mono_case(tape, tier, res):
                 d = tape.pick("stall", [0.1, 1.0, 5.0])
                 clock.true += d
                 clock.offset -= d
+                exact = False     # true + offset may round a few ulps backwards: a (tiny) retrograde step
                 hist.append(("stall", d))
                 res.faults["stall"] += 1
             elif op == 4:
                 dur = tape.pick("dur", [None] + DURS)
-                timer.start(duration=dur)
+                r = timer.start(duration=dur)
                 hist.append(("start", dur))
+                cur = m_stop - m_start
+                m_start = wall()
+                m_stop = m_start + (float(dur) if dur is not None else cur)
+                if exact and r != m_start:
+                    res.violate("monotimer-arithmetic", "start() returned %r, the clock reads %r; history %s" % (r, m_start, hist[-6:]))
+                    break
                 if back_since_read:
                     res.probes["mono_backward_then_start"] += 1
                 last_el = last_ex = None
@@ -172,6 +186,9 @@ def mono_case(tape, tier, res):
                 dur = tape.pick("dur", [None] + DURS)
                 timer.restart(duration=dur)
                 hist.append(("restart", dur))
+                cur = m_stop - m_start
+                m_start = m_stop
+                m_stop = m_start + (float(dur) if dur is not None else cur)
                 res.probes["mono_restart"] += 1
                 last_el = last_ex = None
                 back_since_read = False
@@ -187,6 +204,19 @@ def mono_case(tape, tier, res):
             ex = timer.expired
             reads += 1
             res.comparisons += 2
+            if exact:
+                now = wall()
+                rem, du = timer.remaining, timer.duration
+                res.comparisons += 3
+                tol = 1e-6 + 8 * abs(now) * 2.3e-16     # MonoTimer accumulates deltas: a few ulps of the wall value
+                near = lambda a, b: abs(a - b) <= tol
+                if not (near(el, now - m_start) and near(rem, m_stop - now) and near(du, m_stop - m_start) and
+                        (ex == (now >= m_stop) or near(now, m_stop))):
+                    res.violate("monotimer-arithmetic", "steady clock at %r: elapsed %r remaining %r expired %r duration %r; start %r stop %r give "
+                                "elapsed %r remaining %r expired %r; history %s" % (now, el, rem, ex, du, m_start, m_stop, now - m_start,
+                                                                                   m_stop - now, now >= m_stop, hist[-6:]))
+                    break
+                res.probes["mono_steady_arithmetic_checked"] += 1
             if back_since_read and last_el is not None:
                 back_between += 1
                 res.probes["mono_backward_between_reads"] += 1
